@@ -82,7 +82,9 @@ def _add_type_var_attr_and_method_to_class(cls: C) -> None:
         t_vars = {TYPE_VAR_SELF: cls}
 
         if is_instance_of_generic_class(instance=self):
-            type_vars_fifo = getattr(self, TYPE_VAR_ATTR_NAME, dict())
+            class_params = getattr(type(self), '__parameters__', ())
+            # only the type parameters of the class are remembered per instance; every other TypeVar lives for one call
+            type_vars_fifo = {k: v for k, v in getattr(self, TYPE_VAR_ATTR_NAME, dict()).items() if k in class_params}
             type_vars_generics = check_instance_of_generic_class_and_get_type_vars(instance=self)
             setattr(self, TYPE_VAR_ATTR_NAME, {**type_vars_fifo, **type_vars_generics, **t_vars})
         else:
